@@ -357,7 +357,7 @@ def shard(ctx, n, sub):
 
 
 def main(ctx):
-    n = ctx.pick(100, 3000)
+    n = ctx.pick(100, 20000)
     ctx.shards("shard", [{"n": n, "sub": s} for s in range(16)], timeout=ctx.pick(600, 3400))
     ctx.require("redun_ops", 500)
     ctx.require("validity_checks", 500)
